@@ -516,7 +516,7 @@ def run(ctx):
         for c in chunks(combos, 256):
             tasks.append(("f", (i, c, bgs, False)))
         tasks.append(("f", (i, sorted(sub) if not ctx.thorough else combos[::max(1, len(combos) // 64)], bgs[:1], True)))
-    ctx.pmap(w_any, tasks)
+    ctx.pmap(w_any, tasks, ambient=True)
     ctx.cov["exhaustive"] = True
     ctx.samples.append({"selected_heading": frame(29, [(6, 2, 1), (30, 1, 1), (31, 1, 1), (32, 8, 64)], 0, keepset()), "expected_deg": 225.0})
 
